@@ -22,6 +22,8 @@ import (
 	c19bytes "bytes"
 	c19json "encoding/json"
 	c19fmt "fmt"
+	c19runtime "runtime"
+	c19strings "strings"
 	c19sync "sync"
 	c19testing "testing"
 
@@ -133,13 +135,32 @@ func c19Rules(t *c19testing.T, resource string, admitted bool) {
 	}
 }
 
+// c19PanicOrigin holds "func@file:line" of the frame that raised the panic
+// last caught by c19Guard ("" if none); c19Finish moves it into the notes.
+var c19PanicOrigin string
+
 // c19Guard runs f and returns the string form of a panic escaping from it.
 func c19Guard(f func()) (escaped string) {
+	c19PanicOrigin = ""
 	defer func() {
 		if r := recover(); r != nil {
 			escaped = c19fmt.Sprint(r)
 			if escaped == "" {
 				escaped = "<empty panic value>"
+			}
+			// still on the panicking stack: first frame below the runtime's
+			// panic machinery is the one that raised the panic
+			pcs := make([]uintptr, 64)
+			frames := c19runtime.CallersFrames(pcs[:c19runtime.Callers(2, pcs)])
+			for {
+				fr, more := frames.Next()
+				if fr.Function != "" && !c19strings.HasPrefix(fr.Function, "runtime.") {
+					c19PanicOrigin = c19fmt.Sprintf("%s@%s:%d", fr.Function, fr.File, fr.Line)
+					break
+				}
+				if !more {
+					break
+				}
 			}
 		}
 	}()
@@ -176,6 +197,10 @@ func c19Finish(t *c19testing.T, c *c19Case) {
 		c.Notes += "; "
 	}
 	c.Notes += "seq=[" + seq + "]"
+	if c19PanicOrigin != "" {
+		c.Notes += "; panic_origin=" + c19PanicOrigin
+		c19PanicOrigin = ""
+	}
 	if n := c19stat.GetResourceNode(c.Resource); n != nil {
 		c.NodeFound = true
 		c.GaugeAfter = int(n.CurrentConcurrency())
@@ -275,7 +300,7 @@ func c19GoZeroCase(t *testing.T, ep string, admitted, fallback bool, handler str
 	case "SentinelRouteMiddleware.Handle":
 		// no options at all: default resource name "GET:<path>", no fallback hook
 		c.Resource = http.MethodGet + ":" + path
-		c.Notes = "entry point has no options: resource is the default METHOD:path; no block-fallback option exists, so fallback=true cases are driven exactly like fallback=false; err = handler writes status 500"
+		c.Notes = "fallback_option_available=false; entry point has no options: resource is the default METHOD:path; no block-fallback option exists, so fallback=true cases are driven exactly like fallback=false; err = handler writes status 500"
 		wrap = NewSentinelRouteMiddleware().Handle
 	}
 	c19Rules(t, c.Resource, admitted)
